@@ -2,7 +2,7 @@
 # Runs the repository's pinned test suite with the verif guard OFF and compares with /root/.vp/BASELINE.json.
 export GOFLAGS=-mod=mod GOPROXY=off GOSUMDB=off GOTOOLCHAIN=local
 OUT=${1:-/tmp/baseline.json}
-cd /repo && go test -json -vet=off -count=1 -timeout 25m ./... > "$OUT" 2>/tmp/baseline.err
+cd /repo && go test -json -vet=off -count=1 -timeout ${BASELINE_TIMEOUT:-25m} ./... > "$OUT" 2>/tmp/baseline.err
 python3 - "$OUT" <<'PY'
 import json,sys
 passed=set(); failed=set()
